@@ -40,8 +40,10 @@ def _lammps_rotation(lat):
     return np.linalg.inv(lat) @ low
 
 
-def write_output(c, path, forces, cell):
-    """`forces`: (n, 3) in the native unit, in the atom order of `cell` (= order of the structure file)."""
+def write_output(c, path, forces, cell, line_perm=None):
+    """`forces`: (n, 3) in the native unit, in the atom order of `cell` (= order of the structure file).
+    `line_perm` (LAMMPS only): order in which the per-atom lines are dumped; every line carries its atom id, and a
+    parallel LAMMPS run without `dump_modify sort id` writes them in arbitrary order."""
     n = len(forces)
     syms = list(cell.symbols)
     nums = [int(z) for z in cell.numbers]
@@ -128,7 +130,8 @@ def write_output(c, path, forces, cell):
               "%.16e %.16e %.16e" % (0.0, low[0, 0], low[1, 0]), "%.16e %.16e %.16e" % (0.0, low[1, 1], low[2, 0]),
               "%.16e %.16e %.16e" % (0.0, low[2, 2], low[2, 1]), "ITEM: ATOMS id type x y z fx fy fz"]
         first = list(dict.fromkeys(syms))
-        L += ["%d %d %15.8f %15.8f %15.8f %18.12f %18.12f %18.12f" % ((i + 1, first.index(syms[i]) + 1) + tuple(pos[i]) + tuple(fr[i])) for i in range(n)]
+        L += ["%d %d %15.8f %15.8f %15.8f %18.12f %18.12f %18.12f" % ((i + 1, first.index(syms[i]) + 1) + tuple(pos[i]) + tuple(fr[i]))
+              for i in (range(n) if line_perm is None else line_perm)]
     elif c == "wien2k":
         red = np.array([v / np.sqrt(np.vdot(v, v)) for v in cell.cell])
         comp = forces @ np.linalg.inv(red)  # components along the normalised lattice vectors
